@@ -6,6 +6,8 @@
 //! S: batch == per-document results; iterator == batch when nothing fails, continues after a
 //!    type-level error, ends after a syntax error; single-document entry points reject a second
 //!    document; anchors do not leak across documents.
+//!    Families: twelve record kinds, tuple kinds, text documents (empty block scalars, quoted / block null, !!str), the
+//!    same under a tight max_depth budget, and single-document entry points x budgets x null-like second documents.
 use crate::coq;
 use crate::ctx::Ctx;
 use crate::deserk::{self, DOpts};
